@@ -68,7 +68,7 @@ impl Engine for St {
             "C12" => vec![p("concat.xz", 40000, 400_000), p("concat.lzip", 20000, 200_000)],
             "C13" => vec![p("determ.repeat", 12000, 150_000), p("determ.partition", 12000, 150_000)],
             "C16" => vec![p("exact", 80000, 1_000_000)],
-            "C15" => vec![p("oob.window", 160, 3000), p("oob.movewin", 1500, 20_000), p("oob.encode", 5000, 100_000), p("oob.decode", 25000, 600_000), p("oob.direct_bits", 20000, 300_000), p("oob.chunkend", 3000, 30_000)],
+            "C15" => vec![p("oob.window", 160, 3000), p("oob.movewin", 1500, 20_000), p("oob.stopmove", 400, 6000), p("oob.encode", 5000, 100_000), p("oob.decode", 25000, 600_000), p("oob.direct_bits", 20000, 300_000), p("oob.chunkend", 3000, 30_000)],
             "C17" => vec![p("mem.encoder", 1200, 8000), p("mem.decoder.lzma", 4000, 60000), p("mem.decoder.lzma2", 2000, 30000), p("mem.limit", 8000, 100000), p("mem.estimator", 2000, 40000)],
             "C19" => vec![p("misconfig", 30000, 300_000)],
             "C18" => vec![p("sizes", 40000, 600_000)],
